@@ -133,6 +133,8 @@ func oracleC01(c *oracleCtx) {
 		"console.log(`C:\\\\\\`dir\\``.length)\nconsole.log(`a\\\\\\`b`)\nconsole.log(`\\\\`.length, `\\``.length, `\\\\\\``.length)\n",
 		"let s = `a\\\\\\`.length;//`\nconsole.log(s)\n",
 		"console.log(`\\n\\t\\x41\\u0041\\u{41}`, `line\\\ncontinued`)\n",
+		"console.log(`a\n\n\nb`.length, `\n\n\n\n`.length)\nfunction f() {\n  return `x\n\n\n\n  y\n\n`\n}\nconsole.log(f().length, f())\n",
+		"let t = `one\n\ntwo\n\n\nthree`\n\n\n\nconsole.log(t.split(\"\\n\").length)\n",
 	} {
 		c01Check(c, src, c01Cfgs(c, src, []string{"c", "p:2020:1", "p:09:0"}), false)
 		c.count(src)
